@@ -34,7 +34,7 @@ PROPS["C07"] = {
                    "replaced by a contract) is only ever called with 1 <= depth <= limit, and at depth == limit it is not called at all (ghost call counter) -- i.e. the "
                    "stack depth contributed by these cycles is bounded by the limit.  The sibling chain walked by the loop is a bounded shape (<= 3 tokens), so the units "
                    "are labelled bounded.  Supporting static fact (contracts/C07/facts.py): every recursive cycle of the library call graph is mapped to a guard, a decreasing "
-                   "measure, or listed as 'depth = token-tree depth, no bound in the code'.  The other half of the block parser's cycle is closed by c07_cycle_recursive_parse_* (proof units): recursive_parse_list_item/_indent/_blockquote, entered in the state Parse's contract guarantees, call mmd_parse_token_chain exactly once with its precondition depth <= limit holding and without touching the counter -- the equality guard bounds the depth only while every step of the cycle is 1.",
+                   "measure, or listed as 'depth = token-tree depth, no bound in the code'.  Observer (d) of the dispatch units (c02_dispatch_{html,latex,opendocument}_*, shared with C02): for EVERY token type the per-token writer never enters the tree writer with a lower depth counter than it was entered with, so the export guard cannot be switched off by an arm. The other half of the block parser's cycle is closed by c07_cycle_recursive_parse_* (proof units): recursive_parse_list_item/_indent/_blockquote, entered in the state Parse's contract guarantees, call mmd_parse_token_chain exactly once with its precondition depth <= limit holding and without touching the counter -- the equality guard bounds the depth only while every step of the cycle is 1.",
     "slice": "mmd_export_token_tree_html/latex/beamer/memoir/opendocument/opml/itmz, mmd_parse_token_chain, recursive_parse_list_item/_indent/_blockquote",
     "not_reached": "cost(d^k) <= c*k*cost(d) in executed basic blocks: a relation between two runs on different inputs, not a postcondition of any function; "
                    "kLargeStackThreshold behaviour; token_pairs_match_pairs_inside_token's guard (depth == kMaxPairRecursiveDepth -> immediate return, recursive call with depth+1) "
